@@ -9,7 +9,8 @@ one of its nested `%include` scopes (a scope sees only its own macro table):
   `fix:` 841db2a), surplus arguments are ignored, so the macro is in fact an instruction macro
   (`macroArgumentCount_provenance_instr`);
 * `MacroRecursionLimit n`: that scope declares a macro `n` (its expansion nested 255 deep) — or `n` is the marker
-  "fuel" of the evaluator model's own fuel (`evalFuel` = 100000 nested operand levels; DESIGN §11).
+  `evalFuelMark` (NUL followed by `fuel`: not a possible macro name) of the evaluator model's own fuel (`evalFuel` =
+  100000 nested operand levels; DESIGN §11).
 -/
 import EtkVerif.Asm.ErrorKinds
 namespace EtkVerif
@@ -20,10 +21,10 @@ namespace Asm
 /-- what an evaluator error says about the macro table it was evaluated under -/
 def EvFault (ms : List (String × MacroDef)) : EvErr → Prop
   | .unknownMacro n => ∀ ps b, lookupMacro ms n ≠ some (.expr ps b)
-  | .recursionLimit n => n = "fuel" ∨ ∃ ps b, lookupMacro ms n = some (.expr ps b)
+  | .recursionLimit n => n = evalFuelMark ∨ ∃ ps b, lookupMacro ms n = some (.expr ps b)
   | _ => True
 
-theorem evFault_fuel (ms : List (String × MacroDef)) : EvFault ms (.recursionLimit "fuel") := Or.inl rfl
+theorem evFault_fuel (ms : List (String × MacroDef)) : EvFault ms (.recursionLimit evalFuelMark) := Or.inl rfl
 
 theorem eval_arith_fault {ms : List (String × MacroDef)} {f : Nat} {c : Ctx} {a b : Expr} {err : EvErr}
     {g : Int → Int → Except EvErr Int}
@@ -179,7 +180,7 @@ theorem eval_unknownMacro (f : Nat) (ls : List (String × Option Nat)) (ms : Lis
 theorem eval_recursionLimit (f : Nat) (ls : List (String × Option Nat)) (ms : List (String × MacroDef))
     (vars : Option (List (String × Int))) (d : Nat) (e : Expr) (n : String)
     (h : eval f ⟨ls, ms, vars, d⟩ e = .error (.recursionLimit n)) :
-    n = "fuel" ∨ ∃ ps b, lookupMacro ms n = some (.expr ps b) := eval_fault f ⟨ls, ms, vars, d⟩ e _ h
+    n = evalFuelMark ∨ ∃ ps b, lookupMacro ms n = some (.expr ps b) := eval_fault f ⟨ls, ms, vars, d⟩ e _ h
 
 theorem labelsBind_fault {ms : List (String × MacroDef)} {A B : Except EvErr (List String)} {err : EvErr}
     (h : (match A with
@@ -273,7 +274,7 @@ theorem labelsOf_fault (ms : List (String × MacroDef)) (f depth : Nat) (e : Exp
 def AsmFault (ms : List (String × MacroDef)) : AsmErr → Prop
   | .undeclaredExpressionMacro n => ∀ ps b, lookupMacro ms n ≠ some (.expr ps b)
   | .macroArgumentCount n => ∃ ps b, lookupMacro ms n = some (.instr ps b)
-  | .macroRecursionLimit n => n = "fuel" ∨ ∃ d, lookupMacro ms n = some d
+  | .macroRecursionLimit n => n = evalFuelMark ∨ ∃ d, lookupMacro ms n = some d
   | _ => True
 
 def FaultR {α : Type} (ms : List (String × MacroDef)) (r : Except AsmErr α) : Prop :=
@@ -668,7 +669,7 @@ theorem macroArgumentCount_provenance (rnd : Nat → Nat) (fuel k : Nat) (ops : 
 
 theorem macroRecursionLimit_provenance (rnd : Nat → Nat) (fuel k : Nat) (ops : RawOps) (n : String)
     (h : assemble rnd fuel { fresh := k } ops = .error (.macroRecursionLimit n)) :
-    n = "fuel" ∨
+    n = evalFuelMark ∨
     ∃ (sub : RawOps) (ms : List (String × MacroDef)) (d : MacroDef),
       SubScope sub ops ∧ declareMacros sub.toList [] = .ok ms ∧ lookupMacro ms n = some d := by
   rcases (faultProv_steps rnd fuel).1 k ops _ h with hn | hp
